@@ -1351,6 +1351,10 @@ func main() {
 			decisionFunc("util/strings.go", "StringContainsAnySubStrs"))
 		fmt.Fprintf(&sw, "(* response/response.go Response.Record *)\nDefinition response_record_code : list dstmt :=\n  %s.\n",
 			decisionFunc("response/response.go", "Response.Record"))
+		fmt.Fprintf(&sw, "(* driver/generic/sendcommands.go Driver.SendCommands *)\nDefinition send_commands_code : list dstmt :=\n  %s.\n",
+			decisionFunc("driver/generic/sendcommands.go", "Driver.SendCommands"))
+		fmt.Fprintf(&sw, "(* response/multi.go MultiResponse.AppendResponse *)\nDefinition append_response_code : list dstmt :=\n  %s.\n",
+			decisionFunc("response/multi.go", "MultiResponse.AppendResponse"))
 		sp := filepath.Join(filepath.Dir(*out), "GeneratedSkel.v")
 		olds, _ := os.ReadFile(sp)
 		if !bytes.Equal(olds, sw.Bytes()) {
